@@ -25,7 +25,8 @@ use common::Args;
 static ALLOC: c17::Counting = c17::Counting;
 
 fn main() {
-    std::panic::set_hook(Box::new(|_| {}));
+    // panics of the code under test are caught and counted (catch_unwind); their messages are noise unless asked for
+    if std::env::var("VHARNESS_PANICS").is_err() { std::panic::set_hook(Box::new(|_| {})); }
     let argv: Vec<String> = std::env::args().collect();
     if argv.len() < 2 { eprintln!("usage: vharness <prop> [--tier quick|thorough] [--seed N] [--out DIR] [--replay S]"); std::process::exit(2); }
     let mut a = Args { tier: "quick".into(), seed: 1, out: "work/tmp".into(), replay: None, extra: vec![] };
@@ -45,7 +46,7 @@ fn main() {
         if r.starts_with("backpressure ") && argv[1] == "c06" { let t: Vec<&str> = r.split_whitespace().collect(); let rt = tokio::runtime::Builder::new_multi_thread().worker_threads(2).enable_all().build().unwrap();
             let (got, want, waited) = c20::backpressure_case(&rt, t[1] == "C", t[2].parse().unwrap()); let m = got.len().min(want.len());
             match (0..m).find(|i| got[*i] != want[*i]) { Some(pos) => { println!("FAIL [C06] {waited} writes waited; message #{pos} differs from the frame of write #{pos}"); std::process::exit(1) }, None => { println!("PASS ({waited} waited, {m} compared)"); std::process::exit(if got.len() > want.len() { 1 } else { 0 }) } } }
-        if r.starts_with("ver ") || r.starts_with("sethist ") {
+        if r.starts_with("ver ") || r.starts_with("sethist ") || r.starts_with("mso ") {
             let mut st = common::Stats::default(); wire::typed_api_checks(&prop, &a, &mut st);
             match st.failures.iter().find(|f| f.2 == *r) { Some(f) => { println!("FAIL {}", f.1); std::process::exit(1) }, None => { println!("PASS (typed-API case `{r}` holds)"); std::process::exit(0) } }
         }
@@ -54,6 +55,8 @@ fn main() {
         if r.starts_with("wska ") { let t: Vec<&str> = r.split_whitespace().collect(); let rt = tokio::runtime::Builder::new_multi_thread().worker_threads(2).enable_all().build().unwrap();
             let (sent, handed, replies, others) = c20::ws_keepalive_case(&rt, t[1] == "C", t[2].parse().unwrap());
             if handed == sent && replies == sent && others == 0 { println!("PASS {sent} keep-alives, {replies} replies"); std::process::exit(0) } else { println!("FAIL [C07] {sent} keep-alives sent, {handed} handed over, {replies} replies and {others} other messages seen by the peer"); std::process::exit(1) } }
+        if r.starts_with("unconsumed ") { let t: Vec<&str> = r.split_whitespace().collect(); let f = common::unhex(t[2]);
+            match net::classify(t[1] == "C", &f) { Some((c, _)) => { println!("PASS the frame is consumed ({:?})", c); std::process::exit(0) }, None => { println!("FAIL [{prop}] the complete frame {} is neither decoded nor removed as a decode error", t[2]); std::process::exit(1) } } }
         if r.starts_with("aconv ") { std::process::exit(conv::replay_aconv(&prop, r)); }
         if r.len() > 7 && &r[1..7] == " conv " { std::process::exit(conv::replay_conv(&prop, r)); }
     }
